@@ -14,6 +14,9 @@
    I-level: the ordered loop with its early `continue`s and early `return false`, the dropTags map, and
      uniqueTagsWithSeen's in-place swap-remove followed by appending unseen static tags. *)
 EXTENDS Naturals, Sequences, FiniteSets, SequencesExt, TLC, Json
+\* deviation switch (FALSE = the code as it is): an exclude-metrics hit ends the whole filter chain instead of skipping its own filter
+\* (round-6 seeded change C10 m2; refuted by TLC on the "chain" pool)
+CONSTANT BreakOnExclude
 
 IsInfix(p, s) == \E i \in 0..(Len(s) - Len(p)) : SubSeq(s, i + 1, i + Len(p)) = p
 Match(p, s) ==
@@ -57,7 +60,8 @@ Loop(fs, i, m, dropTags, host) ==
   IF i > Len(fs) THEN [dropped |-> FALSE, dropTags |-> dropTags, hostCleared |-> host]
   ELSE LET f == fs[i] IN
        IF Len(f.mm) > 0 /\ ~MatchAny(f.mm, m.name) THEN Loop(fs, i + 1, m, dropTags, host)
-       ELSE IF MatchAny(f.ex, m.name) THEN Loop(fs, i + 1, m, dropTags, host)
+       ELSE IF MatchAny(f.ex, m.name) THEN (IF BreakOnExclude THEN [dropped |-> FALSE, dropTags |-> dropTags, hostCleared |-> host]
+                                            ELSE Loop(fs, i + 1, m, dropTags, host))
        ELSE IF Len(f.mt) > 0 /\ ~(\E k \in 1..Len(m.tags) : MatchAny(f.mt, m.tags[k])) THEN Loop(fs, i + 1, m, dropTags, host)
        ELSE IF f.dm THEN [dropped |-> TRUE, dropTags |-> dropTags, hostCleared |-> host]
        ELSE Loop(fs, i + 1, m, dropTags \cup {t \in ToSet(m.tags) : MatchAny(f.dt, t)}, host \/ f.dh)
